@@ -2,7 +2,7 @@
 # Runs every seeded change through the official protocol: git -C /repo apply <patch>; ./check <own property> quick;
 # git -C /repo checkout -- .   Output: seeded/<id>/official.txt and a summary on stdout.
 cd /verif
-declare -A OWN=( [revert-D9]=C14 [revert-D10]=C02 [revert-D1]=C01 [revert-D2]=C03 [revert-D3]=C09 [revert-D4]=C07 [revert-D6]=C05 [revert-D7]=C06 [revert-D8]=C12 )
+declare -A OWN=( [revert-D9]=C14 [revert-D10]=C02 [revert-D11]=C16 [revert-D1]=C01 [revert-D2]=C03 [revert-D3]=C09 [revert-D4]=C07 [revert-D6]=C05 [revert-D7]=C06 [revert-D8]=C12 )
 for d in seeded/*/; do
   id=$(basename $d)
   [ -f $d/patch.diff ] || continue
